@@ -206,9 +206,11 @@ Tree(ps) == Node("circuit", "", AtEOF(ps).stk[1].items)
 \* the parser enforces itself: non-positive literal register size, import), or "syntax".
 Outcome(toks) ==
   LET e == AtEOF(PS(toks)) IN
-  IF e.verdict # "ok" THEN [v |-> "syntax", bad |-> e.bad, tree |-> NoWrap]
-  ELSE IF e.static THEN [v |-> "static", bad |-> 0, tree |-> NoWrap]
-  ELSE [v |-> "ok", bad |-> 0, tree |-> Node("circuit", "", e.stk[1].items)]
+  \* (static: a static violation precedes the syntax error; the parser may report either, and a static
+  \* violation carries no position requirement)
+  IF e.verdict # "ok" THEN [v |-> "syntax", bad |-> e.bad, tree |-> NoWrap, static |-> e.static]
+  ELSE IF e.static THEN [v |-> "static", bad |-> 0, tree |-> NoWrap, static |-> TRUE]
+  ELSE [v |-> "ok", bad |-> 0, tree |-> Node("circuit", "", e.stk[1].items), static |-> FALSE]
 
 -------------------------------------------------------------------------------
 (* Spec-level theorems (checked by TLC on every enumerated token string).  *)
